@@ -87,8 +87,17 @@ Faithful(fn, out, ins, lay, k, n, d) ==
 \* tail jump: right after the relocated prefix (position q in the bytes read back from the placeholder) there must be
 \* E9 rel32 landing on origin + n - unless nothing remains (n >= size) or the last copied instruction never falls through
 \* (RET / unconditional JMP), in which case whatever follows is never executed.
+\* Far origins (more than 2 GiB from the placeholder; addresses do not fit TLC's integers: 16-bit lanes, low first): the jump
+\* back is the absolute form  48 BA imm64 ; FF E2  (mov rdx, imm64 ; jmp rdx) with imm64 = origin + n.
+LaneAdd(ls, n) == LET a == ls[1] + n IN
+                  LET b == ls[2] + (a \div 65536) IN
+                  LET c == ls[3] + (b \div 65536) IN
+                  <<a % 65536, b % 65536, c % 65536, (ls[4] + (c \div 65536)) % 65536>>
+Imm64Lanes(b, i) == <<b[i] + 256 * b[i+1], b[i+2] + 256 * b[i+3], b[i+4] + 256 * b[i+5], b[i+6] + 256 * b[i+7]>>
 TailOk(e, q, n, lastTerminal) ==
     IF n >= e.size \/ lastTerminal THEN TRUE
+    ELSE IF e.far THEN /\ q + 12 <= Len(e.out) /\ e.out[q + 1] = 72 /\ e.out[q + 2] = 186 /\ e.out[q + 11] = 255 /\ e.out[q + 12] = 226
+                       /\ Imm64Lanes(e.out, q + 3) = LaneAdd(e.olanes, n)
     ELSE /\ q + 5 <= Len(e.out) /\ e.out[q + 1] = 233
          /\ q + 5 + RelVal(e.out, q + 2, 4) = e.d + n
 
@@ -98,13 +107,15 @@ Clobbered(ins, lim) == \E j \in 1..Len(ins) : ins[j].p >= lim /\ ins[j].rel # 0 
 Check(e) ==
    LET have == Len(e.fn) IN
    LET pr == Parse(e.fn, 0, have, <<>>, have < e.size) IN
-   IF ~pr.ok \/ Len(pr.ins) = 0 THEN "outside-model"
+   IF e.beyond THEN "V:wrote-beyond-the-placeholder"          \* the function behind a tight placeholder changed
+   ELSE IF ~pr.ok \/ Len(pr.ins) = 0 THEN "outside-model"
    ELSE LET ins == pr.ins IN LET n0 == Copied(ins) IN
         LET lim == IF n0 < 0 THEN e.size ELSE n0 IN
         LET into == \E j \in 1..Len(ins) : ins[j].rel # 0 /\ ins[j].tgt > 0 /\ ins[j].tgt < lim IN
         IF e.err # "" THEN (IF SubSeq(e.out, 1, 8) # <<144, 144, 144, 144, 144, 144, 144, 144>> THEN "V:refusal-left-placeholder-modified"
                             ELSE IF into THEN "refused:branch-into-prefix" ELSE "refused:other")
         ELSE IF n0 < 0 /\ have < e.size THEN "outside-model"
+        ELSE IF e.far /\ \E j \in 1..Len(ins) : ins[j].p < lim /\ ins[j].rel # 0 THEN "outside-model"   \* rel32 cannot reach across > 2 GiB
         ELSE IF Clobbered(ins, lim) THEN "V:branch-into-overwritten-entry-bytes-accepted"
         ELSE LET lres == Lay(e.out, ins, 1, lim, 0, <<>>) IN
              IF lres.err # "" THEN lres.err
@@ -118,7 +129,7 @@ Check(e) ==
 Viol == {"V:refusal-left-placeholder-modified", "V:copied-bytes-differ", "V:output-truncated", "V:output-not-decodable", "V:opcode-bytes-differ",
          "V:bytes-after-pcrel-field-lost", "V:displacement-ignores-growth", "V:displacement", "V:displacement-inside-prefix",
          "V:branch-into-the-middle-of-a-copied-instruction", "V:branch-into-overwritten-entry-bytes-accepted",
-         "V:tail-jump"}
+         "V:tail-jump", "V:wrote-beyond-the-placeholder"}
 Init == l = 1 /\ tally = <<>> /\ bad = <<>>
 Bump(t, c) == IF \E i \in 1..Len(t) : t[i][1] = c
               THEN [i \in 1..Len(t) |-> IF t[i][1] = c THEN <<c, t[i][2] + 1>> ELSE t[i]]
